@@ -51,6 +51,15 @@ CHECKS = {
  'C08': dict(cat='proof', tech='Rocq proof (read faults in sync and scrub leave the stripe unsynced or bad with a failing status; error limit; exit status failing for every write fault and writer schedule; full write-fault safety refuted by witnesses = open finding) + fault enumeration: EIO/ENOSPC at every pread/pwrite index with cache depths 1..128, compared with the extracted writer-accounting model',
              text='Read-fault safety and the exit-status half of write-fault safety are proved for all runs of the sync/scrub models; the stripe-state half is refuted (F-C08-parity-write-error-recorded-synced). Every injected fault of real runs is judged by exit status, decoded content, status, and repair by fix -e / sync verified with the independent parity checker.',
              ref='4/C08'),
+ 'C01': dict(cat='proof', tech='Rocq proof per stripe step of the check/fix model (repair enumerates parity combinations, rejects damaged levels by hash, restores the recorded vector when damaged blocks <= intact levels; a following check is quiet) + command-level correspondence and an independent byte/mtime snapshot over every subset of <= np destroyed devices on small geometries',
+             text='fix_restores is proved for one stripe position of the transcribed repair/fix step under collision-freedom on the finite block set; the whole run (files spanning stripes, links, dirs, exit status) is tied to the binary by correspondence and judged by an independent snapshot after fix and check on exhaustive device subsets.',
+             ref='4/C01'),
+ 'C04': dict(cat='proof', tech='Rocq proof (check/scrub stripe steps emit exactly one error tag per damaged block and one parity_error per inconsistent level, nothing on an undamaged stripe; bad mark formula) + every single block of every file and parity level corrupted in turn on the real binary, tag sets compared for equality',
+             text='Location and no-false-alarm theorems on the stripe-step models; real runs with each block corrupted (bit, byte, block, zeroed, swapped) must report exactly the predicted tag sets, exit status and bad marks.',
+             ref='4/C04'),
+ 'C05': dict(cat='proof', tech='Rocq proof: fix_never_wrong stated in full, refuted by concrete witness histories (vm_compute) for the open findings b, c, d; proved under PastHashInv (partial); regression theorem for the repaired F-C05a + histories with a version store on the real binary, wrong results attributed to a finding only by an independent diagnosis',
+             text='The full-strength statement is false on this tree in three registered ways (printed as KNOWN-FINDING); the partial theorem names the invariant repair relies on. Generated histories (interrupted/partial syncs, re-used positions, any damage, filters) are judged by the harness version store: every file must equal a stored version matching its record or be reported unrecoverable.',
+             ref='4/C05'),
  'C03': dict(cat='proof', tech='Rocq proof (MDS of the 6x251 Cauchy and 3x251 power matrices by polynomial root counting in MathComp; Gauss-Jordan without pivoting never meets a zero pivot; combination enumerator and sorting networks) + unit correspondence of raid_rec/raid_data/raid_check/raid_scan in all decoder families against the known original stripe',
              text='All 3.8e11 minors are settled by theorems, not enumeration; the decoder/validator models are executed against the real raid/*.c (int8, ssse3, avx2, dispatcher) on exhaustive small geometries and boundary-aimed large ones, the oracle being the original stripe.',
              ref='4/C03'),
